@@ -97,7 +97,7 @@ func c18Generate(rng *core.Rand, k int) *c18Case {
 			e.file = fmt.Sprintf("dup.fo") // the same file may be listed twice
 			e.content = c18Contents[0]
 		default:
-			e.file = fmt.Sprintf("s%d_%s.fo", i, core.Pick(rng, []string{"a", "union_match", "x.y", "UPPER", "gen_x"}))
+			e.file = fmt.Sprintf("s%d_%s.fo", i, core.Pick(rng, []string{"a", "union_match", "x.y", "UPPER", "gen_x", "hello", "info", "elif", "foo", "o", "f", "x.fo", "off.", "日本", "100%"}))
 		}
 		if rng.Chance(0.75) {
 			e.hasT = true
